@@ -5,7 +5,14 @@ run (coq/gen/scores.v); the list-level wrappers and the shape contract are a han
 Tie: interval enclosures of model values around what the implementation returns on small samples, the shape
 model against the real accept/reject behaviour (vm_compute), and a numeric law sweep on the implementation
 (exhaustive search over the sample points as candidate constants for the quantile-minimiser clause).
+Extension: the converse (minimiser_is_quantile, the exact slope of the loss between sample values), the NaN model
+(nanmean = mean on NaN-free data; NaN samples are exercised for "no exception" only - the property does not fix a value
+there) and the vector-of-taus clause ((n,k) score matrix on lists of rows, flat reshape) are theorems of Props/C19.v; they
+are tied by enclosures of single entries / column means of the matrix model and by the laws of `ext_laws`.
 """
+import random
+import warnings
+
 import numpy as np
 
 from lib import core, encl
@@ -17,7 +24,9 @@ REQ = ("From Coq Require Import List.\nImport ListNotations.\nFrom TyphonGen Req
 CBV = "cbv [mape bias mean_loss loss_sum rmean rsum rlen map mape_kernel bias_kernel quantile_score_kernel]."
 TRUSTED = [
     "translator tools/translate (kernels of mape / bias / quantile_score); reshape / ravel / broadcasting plumbing modelled by hand",
-    "numpy mean / nanmean = arithmetic mean on NaN-free data (exercised by the enclosures)",
+    "numpy mean / nanmean = arithmetic mean on NaN-free data (Model: nanmean / npmean on option values, theorem nanmean_is_mean_when_nan_free; "
+    "exercised by the enclosures and the vector-taus-mean law); NaN = None is a model of IEEE NaN propagation, inf is not modelled",
+    "numpy reshape(-1, k) is C-order chunking (Model: reshape_rows; exercised by the matrix enclosures with flat and (n,k,1) inputs)",
 ]
 
 
@@ -177,6 +186,211 @@ def k0(ctx):
     return ctx.seed % 2
 
 
+CBV_ROWS = ("cbv [quantile_score_rows reshape_rows chunks firstn skipn length map2 score_row nth mqs_rows col map seq "
+            "rmean rsum rlen quantile_score_kernel].")
+PREP_ROWS = CBV_ROWS + " repeat (destruct (Rlt_dec _ _); try lra); repeat match goal with H : _ |- _ => clear H end."
+
+
+def matrix_cases(ctx, sc):
+    """Vector of taus: single entries of the (n,k) score matrix of the list-of-rows model (rows obtained from the flat data by
+    `reshape_rows`, as quantile_score_flat_contract states) and entries of mean_quantile_score (mqs_rows), against what the
+    implementation returns for (n,k), flat and (n,k,1) estimates, (n,) / (n,1) observations and UNSORTED fractions."""
+    rng = random.Random(ctx.seed * 7919 + 19)
+    cases = []
+    for c in range(ctx.n(8, 70)):
+        n, k = rng.randint(1, 4), rng.randint(1, 3)
+        taus = [rng.choice([0.1, 0.5, 0.9, round(rng.uniform(0.01, 0.99), 6)]) for _ in range(k)]
+        ys = [round(rng.uniform(-5, 5), rng.choice([0, 3, 12])) for _ in range(n)]
+        est = [[(ys[i] if rng.random() < 0.15 else round(rng.uniform(-6, 6), rng.choice([0, 3, 12]))) for _ in range(k)] for i in range(n)]
+        flat = [v for row in est for v in row]
+        a = np.asarray(est, dtype=float)
+        a = [a, a.reshape(-1), a.reshape(n, k, 1)][c % 3]
+        y = np.asarray(ys, dtype=float).reshape([(n,), (n, 1)][(c // 3) % 2])
+        q = np.asarray(sc.quantile_score(a, y, taus), dtype=float)
+        mq = np.asarray(sc.mean_quantile_score(a, y, taus), dtype=float)
+        meta0 = {"estimates": est, "y_tau_shape": list(a.shape), "y_test": ys, "y_test_shape": list(y.shape), "taus": taus}
+        if q.shape != (n, k) or mq.shape != (k,):
+            cases.append({"shape_error": True, "meta": dict(meta0, fn="quantile_score (vector of taus)", args=[est, ys, taus],
+                                                          value=f"shapes {q.shape} / {mq.shape}, expected {(n, k)} / {(k,)}")})
+            continue
+        rows = "[" + "; ".join(rl(r) for r in est) + "]"
+        for _ in range(2):
+            i, j = rng.randrange(n), rng.randrange(k)
+            v = float(q[i, j])
+            cases.append({"expr": f"nth {j}%nat (nth {i}%nat (quantile_score_rows (reshape_rows {k}%nat {rl(flat)}) {rl(ys)} {rl(taus)}) []) 0",
+                          "value": v, "tol": max(abs(v) * 1e-11, 1e-12), "prep": PREP_ROWS,
+                          "meta": dict(meta0, fn="quantile_score (vector of taus)", args=[est, ys, taus], entry=[i, j], value=v)})
+        j = rng.randrange(k)
+        v = float(mq[j])
+        cases.append({"expr": f"nth {j}%nat (mqs_rows {rows} {rl(ys)} {rl(taus)}) 0", "value": v, "tol": max(abs(v) * 1e-11, 1e-12),
+                      "prep": PREP_ROWS, "meta": dict(meta0, fn="mean_quantile_score (vector of taus)", args=[est, ys, taus], entry=[j], value=v)})
+    return cases
+
+
+def ext_laws(ctx, sc):
+    """Laws behind the extension theorems, on the implementation:
+    (A) vector of (unsorted) taus: the (n,k) matrix is column-wise the single-tau pinball loss, whatever consistent shape
+        the arguments have; mean_quantile_score is the column mean of it (nanmean = mean on NaN-free data);
+    (B) loss_slope_between_samples / minimiser_is_quantile / search_over_sample_points_exact: for constants c OFF the
+        sample points (mid-points, beyond the extremes, q +- delta) the mean loss differs from the loss at the nearest
+        sample value below / above by exactly (c - m) (#{y < c} - tau n) / n resp. (c - M) (#{y <= c} - tau n) / n, no such c
+        beats the best sample point, and a c that ties with it is a tau-quantile;
+    (C) samples containing NaN: no exception and the documented shapes; no value is compared (the property fixes none)."""
+    out = []
+    stats = {"vector_tau_cases": 0, "slope_checks": 0, "off_sample_candidates": 0, "nan_samples_exercised": 0}
+    rng = np.random.default_rng(ctx.seed * 104729 + 1919)
+    nev = 0
+
+    def bad(sig, what, case):
+        out.append((sig, what, case))
+
+    def draw(kind, n):
+        return (rng.normal(size=n) if kind == 0 else rng.standard_cauchy(n) if kind == 1 else
+                rng.integers(0, 4, n).astype(float) if kind == 2 else rng.exponential(size=n))
+    # ---- (A)
+    for c in range(ctx.n(150, 2500)):
+        n = int(rng.choice([1, 2, 3, 7, 50, 333]))
+        k = int(rng.choice([1, 2, 3, 5]))
+        kind = c % 4
+        y = draw(kind, n)
+        taus = rng.uniform(0.01, 0.99, k)
+        if k > 1 and np.all(np.diff(taus) > 0):
+            taus = taus[::-1].copy()                      # never sorted ascending
+        est = draw(kind, n * k).reshape(n, k)
+        if c % 2 == 0:
+            est[0, 0] = y[0]                                       # estimate == observation
+        case = {"law": "vector-taus", "n": n, "k": k, "kind": kind, "taus": taus.tolist(), "index": c}
+        a = [est, est.reshape(-1), est.reshape(n, k, 1)][c % 3]
+        yy = [y, y.reshape(n, 1), y.reshape(1, n)][(c // 3) % 3]
+        stats["vector_tau_cases"] += 1
+        nev += n * k
+        try:
+            q = np.asarray(sc.quantile_score(a.copy(), yy.copy(), taus if c % 2 else taus.tolist()))
+            mq = np.asarray(sc.mean_quantile_score(a.copy(), yy.copy(), taus if c % 2 else taus.tolist()))
+        except Exception as e:  # noqa
+            bad("vector-taus-exception", f"quantile_score raised {type(e).__name__}: {e} for y_tau shape {a.shape}, y_test shape {yy.shape}, {k} taus",
+                dict(case, shapes=[list(a.shape), list(yy.shape)]))
+            continue
+        if q.shape != (n, k) or mq.shape != (k,):
+            bad("vector-taus-shape", f"quantile_score / mean_quantile_score returned shapes {q.shape} / {mq.shape} for n={n}, k={k}", case)
+            continue
+        for j in range(k):
+            d = np.abs(est[:, j] - y)
+            want = np.where(est[:, j] < y, taus[j] * d, (1 - taus[j]) * d)
+            single = np.asarray(sc.quantile_score(est[:, j].copy(), y.copy(), [float(taus[j])])).ravel()
+            if np.any(np.abs(q[:, j] - want) > 1e-12 * (1 + d)) or np.any(np.abs(q[:, j] - single) > 1e-12 * (1 + d)):
+                i = int(np.argmax(np.abs(q[:, j] - want)))
+                bad("vector-taus-columnwise", f"column {j} of quantile_score with taus {taus.tolist()} is not the pinball loss for tau = {taus[j]}: "
+                    f"entry ({i},{j}) = {q[i, j]!r}, pinball loss of estimate {est[i, j]!r} against {y[i]!r} is {want[i]!r} "
+                    f"(y_tau shape {a.shape}, y_test shape {yy.shape})", dict(case, column=j, row=i))
+                break
+            if not abs(mq[j] - want.mean()) <= 1e-11 * (1 + abs(want.mean())):
+                bad("vector-taus-mean", f"entry {j} of mean_quantile_score = {mq[j]!r}, the mean of column {j} of the pinball losses is {want.mean()!r}",
+                    dict(case, column=j))
+                break
+    # ---- (B)
+    for c in range(ctx.n(120, 2000)):
+        n = int(rng.choice([1, 2, 3, 5, 10, 20, 50, 400 if c % 10 == 0 else 30]))
+        kind = c % 4
+        y = draw(kind, n)
+        tau = float(rng.choice([0.05, 0.25, 0.5, 0.75, 0.95, rng.uniform(0.01, 0.99), rng.integers(1, n + 1) / (n + 1.0)]))
+        case = {"law": "slope", "n": n, "kind": kind, "tau": tau, "index": c}
+
+        def loss(cst):
+            return float(np.asarray(sc.mean_quantile_score(np.full((n, 1), cst), y, [tau])).ravel()[0])
+        pts = np.unique(y)
+        lp = np.array([loss(p) for p in pts])
+        best = float(lp.min())
+        r = min(n - 1, max(0, int(np.ceil(tau * n)) - 1))
+        q = np.sort(y)[r]
+        iq = int(np.searchsorted(pts, q))
+        cand = [pts[0] - 1.0, pts[-1] + 1.0, pts[0] - 1e-3, pts[-1] + 1e-3, q - 1e-6 * (1 + abs(q)), q + 1e-6 * (1 + abs(q)),
+                float(rng.uniform(pts[0], pts[-1]))]
+        for i in range(max(0, iq - 3), min(len(pts) - 1, iq + 3)):
+            cand.append(0.5 * (pts[i] + pts[i + 1]))
+            cand.append(pts[i] + 0.9 * (pts[i + 1] - pts[i]))
+        nev += n * (len(cand) + len(pts))
+        for cst in cand:
+            cst = float(cst)
+            lc = loss(cst)
+            lo, hi = int(np.sum(y < cst)), int(np.sum(y <= cst))
+            stats["off_sample_candidates"] += 1
+            tol = 1e-9 * (1 + abs(best) + abs(lc))
+            if lc < best - tol:
+                bad("minimum-not-at-sample-point", f"the constant {cst!r} has mean_quantile_score {lc!r} < {best!r}, the least value over the sample points "
+                    f"(n={n}, tau={tau})", dict(case, c=cst))
+                break
+            margins = []
+            if lo > 0:
+                m = float(pts[pts < cst].max())
+                k0_ = int(np.searchsorted(pts, m))
+                want = (cst - m) * (lo - tau * n) / n
+                got = lc - float(lp[k0_])
+                stats["slope_checks"] += 1
+                if not abs(got - want) <= 1e-9 * (1 + abs(lc) + abs(lp[k0_]) + abs(want)):
+                    bad("loss-slope", f"mean loss at {cst!r} minus mean loss at the nearest sample value below ({m!r}) is {got!r}; the pinball loss gives "
+                        f"(c - m) (#{{y < c}} - tau n) / n = {want!r} (n={n}, tau={tau}, #{{y < c}}={lo})", dict(case, c=cst, m=m))
+                    break
+                if lo > tau * n * (1 + 1e-9):
+                    margins.append(want)
+            if hi < n:
+                M = float(pts[pts > cst].min())
+                k1_ = int(np.searchsorted(pts, M))
+                want = (cst - M) * (hi - tau * n) / n
+                got = lc - float(lp[k1_])
+                stats["slope_checks"] += 1
+                if not abs(got - want) <= 1e-9 * (1 + abs(lc) + abs(lp[k1_]) + abs(want)):
+                    bad("loss-slope", f"mean loss at {cst!r} minus mean loss at the nearest sample value above ({M!r}) is {got!r}; the pinball loss gives "
+                        f"(c - M) (#{{y <= c}} - tau n) / n = {want!r} (n={n}, tau={tau}, #{{y <= c}}={hi})", dict(case, c=cst, M=M))
+                    break
+                if hi < tau * n * (1 - 1e-9):
+                    margins.append(want)
+            # not a tau-quantile (by a clear margin), yet as good as the best sample point
+            if margins and max(margins) > 100 * tol and lc <= best + tol:
+                bad("minimiser-is-quantile", f"the constant {cst!r} attains the least mean_quantile_score {best!r} but is not a {tau}-quantile "
+                    f"(#{{y < c}}={lo}, #{{y <= c}}={hi}, tau n={tau * n})", dict(case, c=cst))
+                break
+    # ---- (C)
+    for c in range(ctx.n(40, 400)):
+        n = int(rng.choice([1, 2, 5, 50]))
+        k = int(rng.choice([1, 3]))
+        y = rng.normal(size=n)
+        est = rng.normal(size=(n, k))
+        mode = c % 5
+        if mode == 0:
+            y[rng.integers(0, n)] = np.nan
+        elif mode == 1:
+            y[:] = np.nan
+        elif mode == 2:
+            est[rng.integers(0, n), rng.integers(0, k)] = np.nan
+        elif mode == 3:
+            y[rng.random(n) < 0.5] = np.nan
+            est[rng.random((n, k)) < 0.3] = np.nan
+        else:
+            y[0] = np.nan
+            y[-1] = np.nan
+        taus = np.sort(rng.uniform(0.01, 0.99, k))
+        yy = y if c % 2 else y.reshape(n, 1)
+        case = {"law": "nan-sample", "n": n, "k": k, "mode": mode, "index": c}
+        stats["nan_samples_exercised"] += 1
+        nev += n * k
+        with warnings.catch_warnings():
+            warnings.simplefilter("ignore")
+            with np.errstate(all="ignore"):
+                try:
+                    q = np.asarray(sc.quantile_score(est.copy(), yy.copy(), taus))
+                    mq = np.asarray(sc.mean_quantile_score(est.copy(), yy.copy(), taus))
+                    sc.mape(est[:, 0].copy(), y.copy())
+                    sc.bias(est[:, 0].copy(), y.copy())
+                except Exception as e:  # noqa
+                    bad("nan-sample-exception", f"a sample of {n} values containing NaN (pattern {mode}, {k} taus, consistent shapes {est.shape} / {yy.shape}) "
+                        f"raises {type(e).__name__}: {e}", case)
+                    continue
+        if q.shape != (n, k) or mq.shape != (k,):
+            bad("nan-sample-shape", f"a sample containing NaN gives shapes {q.shape} / {mq.shape}, expected {(n, k)} / {(k,)}", case)
+    return out, nev, stats
+
+
 MQS_BODY = "np.nanmean(quantile_score(y_tau, y_test, taus), axis=0)"
 
 
@@ -223,6 +437,25 @@ def run(ctx):
         ctx.cov["enclosures_ok"] = sum(1 for r in res if r == "OK")
         for c in cases[:3]:
             ctx.sample(c["meta"])
+        # vector of taus: entries of the list-of-rows model / of mqs_rows against the implementation
+        mcases = matrix_cases(ctx, sc)
+        for c in [c for c in mcases if c.get("shape_error")]:
+            ctx.fail("failing-input", f"{c['meta']['fn']}: {c['meta']['value']} for consistent shapes", case=c["meta"], signature="vector-taus-shape")
+        mcases = [c for c in mcases if not c.get("shape_error")]
+        res, log = encl.enclosure_check(ctx.work / "encl", "c19m", REQ, mcases)
+        if log:
+            ctx.log(log[-1500:])
+        for c, r in zip(mcases, res):
+            ctx.cov["evaluations"] += 1
+            if r != "OK":
+                m = c["meta"]
+                ctx.fail("correspondence", f"enclosure {r}: entry {m['entry']} of the model's {m['fn']} for estimates {m['estimates']} (given with shape "
+                         f"{m['y_tau_shape']}), observations {m['y_test']} and taus {m['taus']} is not within tolerance of the implementation's {m['value']!r}",
+                         case=m, signature="enclosure:vector-taus")
+        ctx.cov["distinct_nontrivial"] += sum(1 for r in res if r == "OK")
+        ctx.cov["matrix_enclosures_ok"] = sum(1 for r in res if r == "OK")
+        for c in mcases[:2]:
+            ctx.sample(c["meta"])
         # shape contract
         sh = shape_cases(ctx, sc)
         exprs = [f"quantile_score_shape {zlit(int(np.prod(c['st'])))} {zlit(int(np.prod(c['sy'])))} {zlit(c['m'])}" for c in sh]
@@ -244,17 +477,24 @@ def run(ctx):
     fails, n = law_sweep(ctx, sc)
     ctx.cov["evaluations"] += n
     ctx.cov["law_evaluations"] = n
-    for sig, what, case in fails:
+    fails2, n2, stats = ext_laws(ctx, sc)
+    ctx.cov["evaluations"] += n2
+    ctx.cov["law_evaluations"] = n + n2
+    ctx.cov.update(stats)
+    for sig, what, case in fails + fails2:
         ctx.fail("failing-input", what, case=case, signature=sig)
     ctx.cov["rule"] = ("enclosures: samples of 1-8 values with (n,) / (n,1) shapes; shape cases: (y_tau shape, y_test shape, #taus) triples, distinct; "
                        "non-trivial = enclosure proved by Coq resp. distinct shape triple; law sweep: samples of 1..10^4 values "
-                       "(normal, Cauchy, integer ties, exponential) with exhaustive search over the sample points as constant estimates")
+                       "(normal, Cauchy, integer ties, exponential) with exhaustive search over the sample points as constant estimates; "
+                       "extension: enclosures of entries of the (n,k) matrix model (n <= 4, k <= 3, unsorted taus, (n,k) / flat / (n,k,1) inputs); "
+                       "vector-of-taus law (k in 1,2,3,5), exact slope of the loss at constants off the sample points, NaN samples run for 'no exception'")
     return ctx.finish(trusted_base=TRUSTED)
 
 
 def replay(ctx, rec):
     from typhon.retrieval import scores as sc
     fails, _ = law_sweep(ctx, sc)
+    fails = fails + ext_laws(ctx, sc)[0]
     hit = [f for f in fails if f[0] == rec.get("signature")]
     for f in hit[:3]:
         print("still fails:", f[1])
